@@ -204,7 +204,7 @@ def _judge(ctx, spec, stmt, data, ref, trig, edep) -> list:
     if ref is None:
         # no reference denotation: the only verdict left is that the parser output is executable somewhere
         if len(dev) == 2 and not excuses['sqlite'] and not excuses['duckdb'] and 'lit-group-key' not in edep:
-            ctx.fail(spec, 'execute', 'both-engines-' + dev['sqlite'][1], dev['sqlite'][2] + ' / ' + dev['duckdb'][2], rtags)
+            ctx.fail(spec, 'execute', 'error' if rtags else 'both-engines-' + dev['sqlite'][1], dev['sqlite'][2] + ' / ' + dev['duckdb'][2], rtags)
         return ['unjudged:no-reference']
     if not dev:
         return ['judged:both-engines']
@@ -222,17 +222,23 @@ def _judge(ctx, spec, stmt, data, ref, trig, edep) -> list:
     bad = {n: dev[n] for n in judges if n in dev}
     if not bad:
         return out + (['judged:one-engine'] if judges else [])
+    detail = f'sql={selectable} ' + ' / '.join(f'{n}: {d[2]}' for n, d in sorted(bad.items()))
+    if rtags:
+        # a known defect explains the deviation: its downstream symptoms (python bools inside SQL, wrong join kind) are
+        # engine specific, the bucket names the defect and the coarse symptom only
+        kinds = {d[0] for d in bad.values()}
+        kind = 'error' if kinds == {'error'} else sorted(kinds - {'error'})[0]
+        ctx.fail(spec, 'execute' if kind == 'error' else 'result', kind, detail, rtags)
+        return out + ['judged:mismatch']
     if len({d[:2] for d in bad.values()}) == 1 and len(bad) == len(judges):  # every judge deviates the same way
         d = next(iter(bad.values()))
         if d[0] == 'error':
-            kind = ('both-engines-' if len(bad) == 2 else sorted(bad)[0] + '-') + d[1]
-            ctx.fail(spec, 'execute', kind, f'sql={selectable} ' + ' / '.join(x[2] for x in bad.values()), rtags)
+            ctx.fail(spec, 'execute', ('both-engines-' if len(bad) == 2 else sorted(bad)[0] + '-') + d[1], detail)
         else:
-            ctx.fail(spec, 'result', d[0], f'sql={selectable} {d[2]}', rtags)
+            ctx.fail(spec, 'result', d[0], detail)
         return out + ['judged:mismatch']
     for name, d in sorted(bad.items()):
-        clause = 'execute' if d[0] == 'error' else 'result'
-        ctx.fail(spec, clause, f'{name}-only-{d[1]}', f'sql={selectable} {d[2]}', rtags)
+        ctx.fail(spec, 'execute' if d[0] == 'error' else 'result', f'{name}-only-{d[1]}', detail)
     return out + ['judged:mismatch']
 
 
